@@ -858,6 +858,28 @@ def stale_writers(M, c, only=None):
     return [w for w in out if not w[6]] if only is not None else out
 
 
+def _live_reference_only(M, c, D, attr, stmt):
+    """D was made by handing the container self.<attr> ITSELF to a constructor or function (a live view over it), and the write at hand changes that container in
+    place (an element store, a mutator call): the view sees the change, nothing went stale.  (Rebinding self.<attr> to another object would leave the view behind.)"""
+    tgts = stmt.targets if isinstance(stmt, ast.Assign) else [getattr(stmt, 'target', None)]
+    if not all(isinstance(t_, ast.Subscript) for t_ in tgts if t_ is not None):
+        return False
+    bare = 0
+    for m in c.methods.values():
+        for n in ast.walk(m.node):
+            if isinstance(n, ast.Assign) and any(isinstance(t_, ast.Attribute) and t_.attr == D and isinstance(t_.value, ast.Name) and t_.value.id == 'self' for t_ in n.targets):
+                v = n.value
+                if not isinstance(v, ast.Call):
+                    return False
+                for x_ in ast.walk(v):
+                    if isinstance(x_, ast.Attribute) and x_.attr == attr and isinstance(x_.value, ast.Name) and x_.value.id == 'self':
+                        # every occurrence must be a bare argument of the call
+                        if not (x_ in v.args or any(k_.value is x_ for k_ in v.keywords)):
+                            return False
+                        bare += 1
+    return bare > 0
+
+
 def stale_derived_values(ctx, rule, prefixes, what):
     """A stored figure computed from other fields must be recomputed by whoever changes those fields afterwards: a setter (or any method) that assigns a field
     some derived field depends on, and neither reassigns the derived field, nor calls a method of the object that does, nor replaces the whole object, leaves
@@ -867,8 +889,20 @@ def stale_derived_values(ctx, rule, prefixes, what):
     for c in M.classes.values():
         if not any(c.path.startswith(p_) for p_ in prefixes):
             continue
-        for fn, s, objtxt, attr, D, deps, ok in stale_writers(M, c):
+        sw = stale_writers(M, c)
+        # "must be recomputed" is the class's OWN rule only where the class shows it: some step after construction does bring a derived value up to date (another
+        # setter recomputes, a method re-binds).  A class that computes such values once, in its constructor, and lets its plain attributes be reassigned without
+        # ever recomputing (as the original code does with start/end dates) states no such rule - and a property standing in for such an attribute changes nothing.
+        der_ = derived_fields(M, c)
+        ctor_side_ = {n_ for n_, m_ in c.methods.items() if n_ == '__init__' or M.ctor_only(m_)}
+        recomputes = any(set(refr_) - ctor_side_ for _, (deps_, refr_, _e) in der_.items())        # some method other than the constructor (re)assigns a derived field
+        if not any(ok for fn, s, objtxt, attr, D, deps, ok in sw) and not recomputes:
+            n_checked += len(sw)
+            continue
+        for fn, s, objtxt, attr, D, deps, ok in sw:
             n_checked += 1
+            if not ok and _live_reference_only(M, c, D, attr, s):
+                continue
             if not ok:
                 ctx.violation(rule, what, fn.site(s), '%s assigns %s.%s, from which %s.%s was computed (%s), and does not recompute it: the stored %s goes stale'
                               % (fn.qn, objtxt, attr, c.name, D, ', '.join(sorted(deps)), D), key='%s|stale|%s.%s|%s' % (rule, c.name, D, fn.qn))
